@@ -57,6 +57,13 @@ def plan(tier, seed):
     acc = [{'shape': ['<a k="', 0, 1, '">', 2, '</a>']}, {'shape': ["<a k='v", 0, "' j=\"", 1, '"/>', 2]},
            {'shape': ['<!-- ', 0, ' -->', 1]}, {'shape': ['<a>', 0, '<b>', 1, '</b>', 2, '</a>']}]
     famA = dict(name='valid_never_rejected', module=H, fn='accept', jobs=acc, timeout=600, vacuity=1, mutants=[])
+    from checks.hC11 import ERR_CLAUSES
+    names = [n for n, _ in ERR_CLAUSES]
+    groups = [names[i:i + 3] for i in range(0, len(names), 3)]
+    hj = [{'clauses': g, 'steps': 2 if quick else 3} for g in groups]
+    famH = dict(name='compile_histories', module=H, fn='compile_history', jobs=hj, timeout=600 if quick else 2400,
+                vacuity=1, mutants=[{'name': 'memo_parse_defines', 'cfg': {'clauses': ['define-expr', 'reserved-define'], 'steps': 2}},
+                                    {'name': 'memo_expression_compiler', 'cfg': {'clauses': ['content-expr', 'interpolation'], 'steps': 2}}])
     return dict(
         level='model_checking',
         functions=['chameleon.tokenize:Token.__getitem__', 'chameleon.tokenize:Token.split',
@@ -65,7 +72,8 @@ def plan(tier, seed):
                    'chameleon.tal:split_parts', 'chameleon.tal:parse_defines', 'chameleon.tal:parse_attributes',
                    'chameleon.tal:parse_substitution', 'chameleon.i18n:parse_attributes',
                    'chameleon.zpt.program:MacroProgram.visit_element', 'chameleon.zpt.program:validate_attributes',
-                   'chameleon.utils:decode_htmlentities', 'chameleon.exc:TemplateError'],
+                   'chameleon.utils:decode_htmlentities', 'chameleon.exc:TemplateError', 'chameleon.tales:ExpressionParser.__call__',
+                   'chameleon.compiler:ExpressionTransform.__call__', 'chameleon.compiler:Compiler.visit_Assignment'],
         bounds=('inductive kernel: each Token operation (slice with any bounds in [-6,6]/None, strip/lstrip/rstrip with '
                 'and without chars, split(sep), split(), split(sep, 1)) on a token that locates itself, text of up to %d '
                 'symbolic code points at a fixed non-zero offset of a larger source; producers parse_defines / '
@@ -73,10 +81,16 @@ def plan(tier, seed):
                 'symbolic code points); Token.location against the closed form with symbolic newlines; whole front end '
                 'on %d templates with a symbolic statement argument: a raised TemplateError token must locate itself '
                 'in the document; %d well-formed skeletons with symbolic text/attribute characters must never be '
-                'rejected. Outside: error tokens of expressions (Python parser is a C boundary), ";;" escapes and '
-                'entities in statement arguments (known finding), cross-compile state (see seeded C11-b).'
-                % (3 if quick else 4, len(prods), len(fe), len(acc))),
+                'rejected; compile histories: %d erroneous clauses (invalid expression in define / second define part / '
+                'content / behind not: / ${} in text and attribute / tal:attributes, reserved names in define, tuple '
+                'define and repeat, malformed define, unknown statement, content+replace, stray end tag, duplicate '
+                'i18n:attributes) each behind one of 6 paddings (other offsets, lines and columns), %d compilations one '
+                'after the other in one process for every choice of clause and padding (the choice is the solver\'s, each '
+                'compilation is concrete): token, offset, line and column must be those of the compilation that raised. '
+                'Outside: error tokens of symbolic expressions (Python parser is a C boundary), ";;" escapes and '
+                'entities in statement arguments (known finding).'
+                % (3 if quick else 4, len(prods), len(fe), len(acc), len(names), 2 if quick else 3)),
         assumptions=['validity of a token: source[pos:pos+len(token)] == token',
                      'front end executed with the stubbed static-attribute repr (as in C03)'],
-        families=[famT, famP, famL, famF, famA],
+        families=[famT, famP, famL, famF, famA, famH],
     )
